@@ -858,9 +858,10 @@ class Interp:
         T = self.reg.field_type(cls, attr) if cls else None
         e = self.peel(st.F(attr), r)
         if T is None:
-            if cls and cls in self.reg.fields:
+            if cls and cls in self.reg.fields and ('F:' + attr) not in st.written:
+                # not a declared attribute of the class and never assigned on this path
                 raise PyRaise(AttributeError, (), f'{cls}.{attr}')
-            return SV('val', e, T=None)
+            return SV('val', e, T=('any',))
         return self.unbox(e, T)
 
     def write_field(self, r, cls: Optional[str], attr: str, v: SV):
